@@ -45,7 +45,13 @@ type drift map[string]int64
 var comps = [7]string{"phy", "root", "ts", "lock", "link", "count", "size"}
 
 type measurement struct {
-	impl      drift    // stored counters minus the raw-dump recount
+	impl drift // stored counters minus the raw-dump recount
+	// stale: the part of a negative "count" difference that the garbage marks still present on
+	// non-physical addresses cannot account for: min(0, count difference + number of such marks).
+	// The recorded finding "the garbage counter counts marks on addresses that are not stored
+	// physical objects" lasts as long as such a mark exists; when the mark goes away (the virtual
+	// parent is dropped with its last child, the mark is revived or deleted) its count must go too.
+	stale     drift
 	sync      drift    // counters after DB.SyncCounters (on a copy) minus the same raw-dump recount
 	immediate []string // failures that are not differences (API inconsistency, wrap-around)
 	feat      string   // structural features of the dump that matter for the recount
@@ -77,7 +83,7 @@ func against(d drift, cn string, st [7]uint64, rc mw.CnrCount) {
 }
 
 func measure(w *mw.World, inPlace bool) *measurement {
-	ms := &measurement{impl: drift{}, sync: drift{}}
+	ms := &measurement{impl: drift{}, sync: drift{}, stale: drift{}}
 	before := w.Dump()
 	ms.dump = before
 	var sum [7]uint64
@@ -112,6 +118,11 @@ func measure(w *mw.World, inPlace bool) *measurement {
 		// values (zero: every object is marked for removal) are judged there, by the API check above.
 		if rc.Exists && !rc.Removed {
 			against(ms.impl, mw.CnrNames[c], rc.Stored, rc)
+			if st := ms.impl[mw.CnrNames[c]+"/count"] + int64(rc.MarksNonPhys); st < 0 {
+				ms.stale[mw.CnrNames[c]+"/count"] = st
+			} else {
+				ms.stale[mw.CnrNames[c]+"/count"] = 0
+			}
 		}
 		if rc.MarksNonPhys > 0 {
 			feats = append(feats, "marks-on-non-physical-addresses")
@@ -340,6 +351,30 @@ func oracle(s *mw.Sys) (string, string) {
 				fmt.Sprintf("after %s: %s", o, strings.Join(newImm, ", ")))
 		}
 		wi, wsy := worsened(prev.impl, cur.impl), worsened(prev.sync, cur.sync)
+		// A count difference that exists already but loses its explanation in this step (the marks
+		// on non-physical addresses that were counted went away, their count did not) is a class
+		// of its own; it is not raised where the count difference itself grows in the same step.
+		var stale []string
+		for _, k := range worsened(prev.stale, cur.stale) {
+			grew := false
+			for _, w := range wi {
+				grew = grew || w == k
+			}
+			if !grew {
+				stale = append(stale, k)
+			}
+		}
+		if len(stale) > 0 {
+			c, det := render(o, prev.stale, cur.stale, stale)
+			c = strings.ReplaceAll(c, "count-", "count-left-behind-")
+			if len(wi) > 0 {
+				c2, _ := render(o, prev.impl, cur.impl, wi)
+				c += "," + c2
+			}
+			k0 := stale[0]
+			return report(fmt.Sprintf("counters:%s(%s):%s:%s", fpKind(o, cls), fpClass(cls), verdict, c),
+				fmt.Sprintf("%s (%s; verdict %s) removes garbage marks of addresses that are not stored physical objects but leaves their count in the garbage counter: phy-gc is below the number of unmarked physical objects by more than the marks still present on such addresses can explain (unexplained part: %s; count difference %+d -> %+d)", o, cls, verdict, det, prev.impl[k0], cur.impl[k0]))
+		}
 		if len(wi) > 0 {
 			c, det := render(o, prev.impl, cur.impl, wi)
 			what := fmt.Sprintf("%s (%s; verdict %s) makes the stored counters differ from the raw-dump recount (counter minus recount): %s", o, cls, verdict, det)
@@ -349,7 +384,7 @@ func oracle(s *mw.Sys) (string, string) {
 			} else {
 				what += "; DB.SyncCounters gives the recount's values for these"
 			}
-			return report(fmt.Sprintf("counters:%s(%s):%s:%s", o.Kind, cls, verdict, c), what)
+			return report(fmt.Sprintf("counters:%s(%s):%s:%s", fpKind(o, cls), fpClass(cls), verdict, c), what)
 		}
 		if len(wsy) > 0 {
 			c, det := render(o, prev.sync, cur.sync, wsy)
@@ -388,6 +423,36 @@ func driftAlphabet() []mw.Op {
 		"InhumeContainer(cA)", "DeleteContainer(cA)"), mw.MacroOps()...)
 }
 
+// fpKind / fpClass normalise the operation and target class for fingerprints: a garbage mark applied
+// through the id of a header-only (virtual) parent is one class whatever the kind of the new mark and
+// of a mark the parent already carries -- to the counters both kinds are the same there. (The
+// description keeps the real operation.)
+func fpKind(o mw.Op, cls string) string {
+	if o.Kind == mw.OpMarkRedundant && strings.HasPrefix(cls, "header-only") {
+		return mw.OpMarkDefault.String()
+	}
+	return o.Kind.String()
+}
+
+func fpClass(cls string) string {
+	if strings.HasPrefix(cls, "header-only+marked-redundant") {
+		return "header-only+marked" + strings.TrimPrefix(cls, "header-only+marked-redundant")
+	}
+	return cls
+}
+
+// parentMarkAlphabet: garbage marks of both kinds applied THROUGH the ID of a virtual parent (split
+// root P, EC parent E, and the v2 / v1 chain roots G, W of the chain-shape families) followed by the
+// physical deletion of the children one by one, so that the parent index and its mark go away with
+// the last child; an unrelated unmarked object (R2) lives next to them. Two scripted prefixes store
+// the families and mark the parents, so that depth 3 reaches "both children deleted".
+func parentMarkAlphabet() []mw.Op {
+	return append(mw.OpsByName("Put(R2)", "Put(C1)", "Put(C2)", "Put(K)", "Put(E0)", "Put(E1)", "Put(G2)", "Put(Ga)", "Put(Vl)", "Put(Va)",
+		"MarkGarbage(P)", "MarkRedundant(P)", "MarkGarbage(E)", "MarkRedundant(E)", "MarkGarbage(G)", "MarkRedundant(W)",
+		"Delete(C1)", "Delete(C2)", "Delete(K)", "Delete(E0)", "Delete(E1)", "Delete(G2)", "Delete(Ga)", "Delete(Vl)", "Delete(Va)"),
+		mw.OpsByName("Macro(parents-marked)", "Macro(parents-marked-2)")...)
+}
+
 func main() {
 	r := ev.Start("C02", ev.ModelChecking)
 	if r.Quick() && r.Budget == 90*time.Second { // the default; an explicit -budget is respected
@@ -398,10 +463,19 @@ func main() {
 
 	full := append(mw.FullAlphabet(), mw.MacroOps()...)
 	dr := driftAlphabet()
-	// one alphabet for replays: the union (drift letters are a subset of the full alphabet)
-	fullDepth, driftDepth := 2, 3
+	pm := parentMarkAlphabet()
+	fullDepth, driftDepth, pmDepth := 2, 3, 3
 	if r.Thorough() {
-		fullDepth, driftDepth = 3, 4
+		fullDepth, driftDepth, pmDepth = 3, 4, 4
+	}
+	// replays resolve names over the union of the alphabets
+	var all []mw.Op
+	seenOp := map[string]bool{}
+	for _, o := range append(append(append([]mw.Op{}, full...), dr...), pm...) {
+		if !seenOp[o.String()] {
+			seenOp[o.String()] = true
+			all = append(all, o)
+		}
 	}
 	mk := func(ops []mw.Op, depth int) seqx.Config {
 		return seqx.Config{NumOps: len(ops), MaxDepth: depth, CheckInit: true,
@@ -412,7 +486,7 @@ func main() {
 		replayMode = true
 		var rp struct{ Ops []string }
 		r.LoadReplay(&rp)
-		fp, what, err := seqx.Replay(mk(full, 0), rp.Ops)
+		fp, what, err := seqx.Replay(mk(all, 0), rp.Ops)
 		if err != nil {
 			os.RemoveAll(scratch)
 			r.Fatal("%v", err)
@@ -425,7 +499,10 @@ func main() {
 	}
 
 	res1 := seqx.Run(r, mk(full, fullDepth))
-	var res2 seqx.Result
+	var res2, res3 seqx.Result
+	if !r.Expired() {
+		res3 = seqx.Run(r, mk(pm, pmDepth))
+	}
 	if !r.Expired() {
 		res2 = seqx.Run(r, mk(dr, driftDepth))
 	}
@@ -439,11 +516,11 @@ func main() {
 			fmt.Printf("DBG %s\n      %s\n", k, dbgFails[k])
 		}
 	}
-	r.Exhaustive(res1.Exhaustive && res2.Exhaustive)
-	r.Set("depth_completed", fmt.Sprintf("full alphabet: %d, drift alphabet: %d", res1.DepthCompleted, res2.DepthCompleted))
+	r.Exhaustive(res1.Exhaustive && res2.Exhaustive && res3.Exhaustive)
+	r.Set("depth_completed", fmt.Sprintf("full alphabet: %d, parent-mark alphabet: %d, drift alphabet: %d", res1.DepthCompleted, res3.DepthCompleted, res2.DepthCompleted))
 	r.Set("outcome_classes", len(outcomes))
-	r.Set("alphabet_size", fmt.Sprintf("full %d (incl. %d macros), drift %d", len(full), len(mw.MacroOps()), len(dr)))
-	r.Rule(fmt.Sprintf("two BFS runs with state dedup from the empty metabase: (1) all sequences of <= %d letters over the full metaworld alphabet (%d elementary operations + %d scripted prefixes enabled in the initial state only), (2) all sequences of <= %d letters over the reduced %d-letter drift alphabet incl. the same prefixes (duplicate put, put with parent header, tombstones of unstored/stored/parent/child targets, repeated and redundant-then-default marks, revive after tombstone and after mark, delete of a parent through its last child, container removal); state key = raw bbolt dump + epoch + reference model; non-trivial = reaches a state not seen before; both oracles run after every transition (depths completed: %d and %d)", fullDepth, len(mw.FullAlphabet()), len(mw.MacroOps()), driftDepth, len(dr), res1.DepthCompleted, res2.DepthCompleted))
+	r.Set("alphabet_size", fmt.Sprintf("full %d (incl. %d macros), parent-mark %d, drift %d", len(full), len(mw.MacroOps()), len(pm), len(dr)))
+	r.Rule(fmt.Sprintf("three BFS runs with state dedup from the empty metabase: (1) all sequences of <= %d letters over the main metaworld alphabet (%d elementary operations + %d scripted prefixes enabled in the initial state only), (2) all sequences of <= %d letters over the %d-letter parent-mark alphabet (children of a split root, an EC parent and the v2/v1 chain roots stored next to an unrelated object; garbage marks of both kinds applied through the PARENT id; physical deletion of the children one by one so that the parent index and its mark vanish with the last child; 2 prefixes that store the families and mark the parents), (3) all sequences of <= %d letters over the reduced %d-letter drift alphabet incl. the prefixes (duplicate put, put with parent header, tombstones of unstored/stored/parent/child targets, repeated and redundant-then-default marks, revive after tombstone and after mark, delete of a parent through its last child, container removal); state key = raw bbolt dump + epoch + reference model; non-trivial = reaches a state not seen before; the oracles run after every transition, i.e. also right after a parent vanished (depths completed: %d, %d and %d)", fullDepth, len(mw.FullAlphabet()), len(mw.MacroOps()), pmDepth, len(pm), driftDepth, len(dr), res1.DepthCompleted, res3.DepthCompleted, res2.DepthCompleted))
 	r.Assume("single-threaded histories on one metabase (bbolt batch size 1)",
 		"per-type counters of a container that was marked for removal as a whole are not compared with the raw recount (the implementation zeroes them while the objects are still indexed; the text is silent about that window); they are compared with DB.SyncCounters")
 	os.RemoveAll(scratch)
